@@ -1,5 +1,6 @@
 import CoapVerif.Model.BlockCrcv
 import CoapVerif.Model.BlockXmit
+import CoapVerif.Model.BlockTok
 /-
 The COMPOSED Block2 system: a libcoap server sending a body (application handler + `coap_add_data_large_response` →
 `adlBody` for the first block, `xmitB2Step` = coap_handle_request_send_block for the others), a lossy, duplicating,
@@ -39,7 +40,11 @@ structure B2Sys where
 inductive B2Event where
   | appGet (szx : Nat)          -- the client application sends the GET (Block2 (0, 0, szx))
   | reqArrives (i : Nat)        -- request datagram i reaches the server (again)
-  | rspArrives (j : Nat)        -- response datagram j reaches the client (again)
+  | rspArrives (j : Nat) (sent : Bool)
+                                -- response datagram j reaches the client (again); `sent` = coap_dispatch matched it (by message
+                                -- id) to a Confirmable request that is still in the send queue — the `sent` argument of
+                                -- coap_handle_response_get_block is non-NULL (`crcvStepS`, Model/BlockTok.lean).  The schedule
+                                -- chooses the flag freely: every behaviour of the message layer is covered
   | srvExpire                   -- the lg_xmit times out
   | cliExpire                   -- the lg_crcv times out
   | cliNew                      -- coap_send() sets up a fresh lg_crcv for the token (NON request / Observe), replacing any old one
@@ -82,10 +87,10 @@ def b2Step (P : B2Par) (s : B2Sys) : B2Event → B2Sys
     match s.reqs[i]? with
     | some (num, szx) => srvOnReq P s num szx
     | none => s
-  | .rspArrives j =>
+  | .rspArrives j sent =>
     match s.rsps[j]? with
     | some r =>
-      let res := crcvStep P.single P.cap P.junk s.cli r
+      let res := crcvStepS sent P.single P.cap P.junk s.cli r
       { s with cli := res.1, outs := s.outs ++ [res.2],
                reqs := s.reqs ++ (match nextReq res.2 with | some q => [q] | none => []) }
     | none => s
@@ -159,7 +164,11 @@ def b1Step (P : B1Par) (s : B1Sys) : B1Event → B1Sys
         | some v => { s with cli := some { data := P.body, blkSize := r.blkSize },
                              reqs := s.reqs ++ [⟨v / 16, (v / 8) % 2, v % 8, P.body.take r.payload, some P.body.length⟩] }
         | none => s
-      else s                                  -- one message is enough: not a block-wise transfer
+      else
+        -- "No need to use blocks": the whole body in ONE message, no lg_xmit, no Size1 / Request-Tag; the Block1 option
+        -- (0, 0, blk_size) only if the application had put one in (`blk`), none otherwise (read as (0, 0, 0) by the server:
+        -- both take the "Not blocked, or a single block" exit of coap_handle_request_put_block)
+        { s with reqs := s.reqs ++ [⟨0, 0, (match r.blockVal with | some v => v % 8 | none => 0), P.body.take r.payload, none⟩] }
     | none => s                               -- refused
   | .reqArrives i =>
     match s.reqs[i]? with
